@@ -68,6 +68,8 @@ class GetService(DPWSPortTypeBase):
 
                 self._logger.debug('_on_get_md_state requested Handles:{} found {} states', requested_handles,
                                    len(state_containers))
+                # a state shall be reported only once, also if it was selected by more than one handle
+                state_containers = list({id(state): state for state in state_containers}.values())
             mdib_version_group = self._mdib.mdib_version_group
 
         factory = self._sdc_device.msg_factory
